@@ -183,6 +183,10 @@ def m3c(ctx):
     for i, c in enumerate(emits):
         C.check_only_allowed_skips(ctx, b, c.bb, [("true", shortcut), ("false", shortcut)], "variants:%d" % i, "emitting a variant")
         seen_shortcut = seen_shortcut or any(kind in ("true", "false") and shortcut(t, cond) for e_, kind, t, cond in C.skip_conditions(b, c.bb))
+        # flag form: `let mut all_trivial = true; for i in ids { if !is_trivial(i) { all_trivial = false; break } } if all_trivial {..}`
+        for e_, cond in C.conditions_at(b, c.bb):
+            if isinstance(e_, tuple) and e_[0] == "e" and C.is_forall_flag(crate, b, e_[1], "is_trivial", over=("ids", "applied_id_occurrences")):
+                seen_shortcut = True
     # the shortcut tests is_trivial of every child's class group
     ctx.check(seen_shortcut, "shortcut-is-all-trivial", "the only shortcut is 'every child's group is trivial'", "the early return of the variant enumeration is no longer 'all child groups trivial'", where_of(b))
     # cartesian itself: exhaustive odometer (report as information; its own unit test pins the count)
